@@ -196,6 +196,15 @@ func (it *Interp) intrinsic(name string, fn *ssa.Function, a []Val) Val {
 		d := it.ctxOf(a[0])
 		s := it.storeFor(d, it.cstr(a[1], "store name"))
 		return BVu(64, uint64(storeDirty(s)))
+	case "StoreAccesses":
+		// number of store accesses (reads and writes) made through this context's scope chain: what the gas meter of the
+		// context is charged for (every access costs a positive flat amount)
+		d := it.ctxOf(a[0])
+		n := 0
+		for s := it.storeFor(d, it.cstr(a[1], "store name")); s != nil; s = s.parent {
+			n += s.gets + len(s.log)
+		}
+		return BVu(64, uint64(n))
 	case "ScopeWrites":
 		// writes recorded in exactly this context's own scope
 		d := it.ctxOf(a[0])
